@@ -33,7 +33,7 @@ impl Scenario for C01 {
         }
     }
     fn plan(&self, seed: u64, run: u64, tier: Tier) -> Plan {
-        gen_plan("C01", seed, run, tier)
+        if run < 12 { enum_lengths(seed, run, tier) } else { gen_plan("C01", seed, run, tier) }
     }
 }
 
@@ -97,5 +97,38 @@ pub fn gen_plan(prop: &str, seed: u64, run: u64, tier: Tier) -> Plan {
         b.push(Step::Deliver { tok, node: verifier, key: vkey, purpose: None, faults: vec![], pk: None, fk: None, validator: VSpec::None, alias, now_ns: now, pair_with: None });
     }
     let _ = Kind::Local;
+    b.finish()
+}
+
+/// Runs 0..12: one (backend, purpose) each... every payload length 0..=L (all block boundaries of
+/// AES, ChaCha, SHA-384, BLAKE2b and Poly1305 several times over), then the large sizes.
+fn enum_lengths(seed: u64, run: u64, tier: Tier) -> Plan {
+    let bk = Bk::ALL[(run % 6) as usize];
+    let purpose = if run / 6 == 0 { Purp::Local } else { Purp::Public };
+    let mut b = Builder::new("C01", seed, run, vec![bk]);
+    let fk = b.family_keys(bk.family(), false).unwrap();
+    let now = Ns(b.now_ns);
+    let slow = purpose == Purp::Public && matches!(bk, Bk::V1 | Bk::V3);
+    let top = match (tier, slow) {
+        (Tier::Quick, true) => 130,
+        (Tier::Quick, false) => 400,
+        (Tier::Thorough, true) => 520,
+        (Tier::Thorough, false) => 2100,
+    };
+    let mut lens: Vec<usize> = (0..=top).collect();
+    lens.extend([4095, 4096, 4097, 65535, 65536, 65537]);
+    if tier == Tier::Thorough {
+        lens.extend([(1 << 20) - 1, 1 << 20, (1 << 20) + 1]);
+    }
+    let (key, vkey) = if purpose == Purp::Local { (fk.local, fk.local) } else { (fk.secret, fk.public) };
+    for len in lens {
+        let tok = b.tok_slot();
+        let claims = crate::plan::ClaimsSpec::Raw { bytes: crate::plan::Bytes::Gen { len, seed: b.ev_seed() } };
+        let footer = if len % 3 == 0 { crate::plan::FootSpec::Unit } else { crate::plan::FootSpec::Bytes { bytes: crate::plan::Bytes::Gen { len: len % 67, seed: b.ev_seed() } } };
+        let aad = if bk.has_aad() && len % 2 == 1 { crate::plan::Bytes::Gen { len: len % 41, seed: b.ev_seed() } } else { crate::plan::Bytes::empty() };
+        let rng = b.healthy_rng();
+        b.push(Step::Seal { tok, node: 0, key, purpose, claims, footer, aad, nonce: None, alias: len % 2 == 0, rng, now_ns: now });
+        b.push(Step::Deliver { tok, node: 0, key: vkey, purpose: None, faults: vec![], pk: None, fk: None, validator: VSpec::None, alias: len % 4 < 2, now_ns: now, pair_with: None });
+    }
     b.finish()
 }
